@@ -34,14 +34,15 @@ CFG = dict(
     imports=["From Verif.Common Require Import Packet PolicyRef Ipt.", "From Verif.C08 Require Import Model.",
              "From Verif.C09 Require Import Model Spec.", "Open Scope string_scope."],
     checker="check_case",
-    n=dict(quick=120, thorough=3000),
+    n=dict(quick=120, thorough=1200),
     shard=15,
     deps=["Common", "C08"],
     rule="2 corpus cases (minimal profile-pass witness, iptables and nftables) + generated endpoints: 0-4 tiers (default action Deny / Pass / unset) x 0-12 policies per tier (GNP, NP, KNP and the three staged "
          "kinds; 22% of cases have tiers of 5-12 policies so that group chains cross the 5-policy return stride once or twice), policies "
          "split into groups at random (including all-staged, single-policy and empty groups), 0-3 rules per policy and direction, "
          "0-3 profiles (30% of cases allow Pass rules inside profiles), workload endpoints (admin up/down, VXLAN/IPIP from workloads allowed or not), host endpoints (failsafe jump) "
-         "and the forward chains of host endpoints (no profiles; allowed outright without tiers), "
+         "the forward chains of host endpoints (no profiles; allowed outright without tiers) and their raw (untracked policy, NOTRACK) and "
+         "mangle (pre-DNAT) chains (no end-of-tier default, no profiles), "
          "ingress and egress, IPv4 and IPv6, iptables and nftables, 4 mark layouts, flow logs on/off, DROP/REJECT, filter allow action "
          "ACCEPT/RETURN, conntrack-invalid rule on/off; rules over a small universe of addresses/CIDRs/ports/IP sets with at most two "
          "positive match blocks (the C08 scratch-bit finding needs three); per case up to 40 probe packets: one aimed at each rule plus a "
@@ -101,10 +102,10 @@ def replay(ctx, path):
 
 MANIFEST = dict(
     category="proof",
-    text="Theorems over an executable model of endpointIptablesChain, PolicyGroupToIptablesChains and the policy/profile chain wrappers, "
-         "evaluated on the abstract netfilter machine: for every tier/group/policy/profile layout, default action, staged mix and packet "
-         "the rendered endpoint chain reaches PolicyRef.endpoint_verdict; group chains behave as the inlined jumps at every position of the "
-         "return stride; staged policies are inert.  Plus a correspondence run rendering generated endpoints with the REAL renderer "
+    text="Theorems over an executable model of endpointIptablesChain (all four chain types), PolicyGroupToIptablesChains and the policy/profile "
+         "chain wrappers, evaluated on the abstract netfilter machine: for every tier/group/policy/profile layout, default action, staged mix "
+         "and packet the rendered endpoint chain reaches PolicyRef.endpoint_verdict; a group chain computes exactly what the inlined jumps "
+         "compute, at every position of the return stride; staged policies are inert.  Plus a correspondence run rendering generated endpoints with the REAL renderer "
          "(iptables and nftables), parsing the text back and checking both structural equality with the model and the verdict of the real "
          "chains on probe packets against the reference.",
     note="Trusted: Coq kernel; the abstract netfilter semantics (Common/Ipt.v); the reference semantics (Common/PolicyRef.v); the text parser of the Go driver.",
